@@ -352,6 +352,9 @@ func (w *World) Run(s Scheduler, stop func(w *World) bool) {
 		if stop != nil && stop(w) {
 			return
 		}
+		if len(w.Pending) == 0 {
+			return // the stop hook may drop queued events (a party going silent)
+		}
 		w.Exec(s(w))
 	}
 }
